@@ -427,6 +427,12 @@ func (e *Enc) call(fr *Frame, st *State, c *ssa.Call) *State {
 		_ = mc
 	}
 	name := shortName(callee)
+	if e.w.mine[pkgOf(callee)] && implicitRecvNonNil(callee) && len(args) > 0 {
+		// methods that never test their receiver against nil are verified assuming it is non-nil:
+		// the assumption is an obligation here
+		e.addOb(fr, "SAFE", "nilrecv", c.Pos(), text, "(not (= "+args[0]+" 0))", e.allocTerms[args[0]])
+		e.assumeG("(not (= " + args[0] + " 0))")
+	}
 	if ct := e.spec.contractFor(callee); ct != nil {
 		return e.callContract(fr, st, c, callee, ct, args)
 	}
